@@ -20,9 +20,9 @@ META = {
                   'enspara.ra.ra.RaggedArray.__init__ (flat+lengths)', 'enspara.cluster.util.MolecularClusterMixin.predict',
                   'enspara.cluster.util.compute_batches'],
     'bounds': {'quick': 'assignment: N<=4 frames, K<=5 centers (arbitrary tokens, duplicates allowed); find_cluster_centers N<=4, '
-                        '<=3 labels; partition: every composition of N<=4 into trajectory lengths; partition_indices: 3 '
+                        '<=3 labels; partition: every composition of N<=6 into trajectory lengths; partition_indices: 3 '
                         'trajectories of UNBOUNDED symbolic length; compute_batches: <=3 lengths, unbounded values',
-               'thorough': 'assignment N<=5,K<=6; find_cluster_centers N<=5; partition N<=6; partition_indices 4 trajectories'},
+               'thorough': 'assignment N<=5,K<=6; find_cluster_centers N<=5; partition N<=7; partition_indices 4 trajectories'},
     'stubs': ['metric = uninterpreted function D over N+K tokens', 'trajectory with .xyz = token array subclass'],
     'assumptions': ['exact real arithmetic', 'values of the flat arrays are opaque tokens (fresh variables)'],
     'outside': ['batch_reassign / reassign (mdtraj, joblib, psutil I/O)'],
@@ -265,16 +265,20 @@ def partition_job(lengths, k=2):
             return out
         if exc is not None:
             return PathOut([('no-exception', False)], {}, witness, exc=type(exc).__name__)
-        kind_ok = (isinstance(p.assignments, np.ndarray) and isinstance(p.distances, np.ndarray)) if square else \
-            (type(p.assignments).__name__ == 'RaggedArray' and type(p.distances).__name__ == 'RaggedArray')
-        pa, pd = rows_of(p.assignments), rows_of(p.distances)
-        pci = [tuple(x) for x in p.center_indices]
-        obs = oracle(pa, pd, pci, av, dv, ci, kind_ok)
-        if not square:
-            obs.append(('ragged-flat-data-is-the-concatenation',
-                        conj([x == y for x, y in zip(cells(p.assignments._data), av)])))
-        return PathOut(obs, {'assignments': pa, 'distances': pd, 'center_indices': [list(x) for x in pci]}, witness,
-                       desc='partition lengths=%s' % lengths)
+        try:
+            kind_ok = (isinstance(p.assignments, np.ndarray) and isinstance(p.distances, np.ndarray)) if square else \
+                (type(p.assignments).__name__ == 'RaggedArray' and type(p.distances).__name__ == 'RaggedArray')
+            pa, pd = rows_of(p.assignments), rows_of(p.distances)
+            pci = [tuple(x) for x in p.center_indices]
+            obs = oracle(pa, pd, pci, av, dv, ci, kind_ok)
+            if not square and kind_ok:
+                obs.append(('ragged-flat-data-is-the-concatenation',
+                            conj([x == y for x, y in zip(cells(p.assignments._data), av)])))
+            so = {'assignments': pa, 'distances': pd, 'center_indices': [list(x) for x in pci]}
+        except Exception as e:          # result has an unexpected structure
+            obs = [('result-has-the-documented-structure', False)]
+            so = {}
+        return PathOut(obs, so, witness, desc='partition lengths=%s' % lengths)
     return path
 
 
@@ -391,7 +395,7 @@ def jobs(tier):
     for N in range(1, (4 if q else 5) + 1):
         for L in range(1, min(3, N) + 1):
             add('fcc_job', 'find_centers[N=%d,L=%d]' % (N, L), N=N, L=L)
-    for n in range(1, (4 if q else 6) + 1):
+    for n in range(1, (6 if q else 7) + 1):
         for comp in compositions(n):
             add('partition_job', 'partition[%s]' % ','.join(map(str, comp)), lengths=comp, k=min(2, n))
     for T in ((1, 2, 3) if q else (1, 2, 3, 4)):
